@@ -13,11 +13,13 @@ EXTENDS Integers, FiniteSets, Sequences, TLC, Json, IOUtils
 Hist  == ndJsonDeserialize(IOEnv.TRACE)
 NHist == Len(Hist)
 
-RuleTab == [ r1 |-> [type |-> "T1", op |-> ">",  c |-> 1, noLoop |-> TRUE],
-             r2 |-> [type |-> "T1", op |-> "<=", c |-> 1, noLoop |-> TRUE],
-             r3 |-> [type |-> "T2", op |-> "==", c |-> 2, noLoop |-> TRUE],
-             r4 |-> [type |-> "T1", op |-> ">",  c |-> 0, noLoop |-> FALSE] ]
-Cmp(op, x, c) == CASE op = ">" -> x > c [] op = "<=" -> x <= c [] op = "==" -> x = c
+RuleTab == [ r1 |-> [type |-> "T1", op |-> ">",  c |-> 2, noLoop |-> TRUE],
+             r2 |-> [type |-> "T1", op |-> "<=", c |-> 2, noLoop |-> TRUE],
+             r3 |-> [type |-> "T2", op |-> "==", c |-> 4, noLoop |-> TRUE],
+             r4 |-> [type |-> "T1", op |-> ">",  c |-> 0, noLoop |-> FALSE],
+             r5 |-> [type |-> "T1", op |-> ">=", c |-> 4, noLoop |-> TRUE],
+             r6 |-> [type |-> "T1", op |-> "<",  c |-> 6, noLoop |-> TRUE] ]
+Cmp(op, x, c) == CASE op = ">" -> x > c [] op = "<=" -> x <= c [] op = "==" -> x = c [] op = ">=" -> x >= c [] op = "<" -> x < c
 Sat(r, f) == f.type = RuleTab[r].type /\ Cmp(RuleTab[r].op, f.a, RuleTab[r].c)
 
 VARIABLES h, i,
